@@ -10,6 +10,10 @@ type Violation struct {
 	Sig    string      `json:"sig"` // stable signature used for known-finding matching and de-duplication
 	Detail string      `json:"detail"`
 	Render interface{} `json:"render,omitempty"`
+	// OwnHistory: the run made the earlier calls the violation may depend on
+	// itself, so it replays in a fresh process even on a tree that carries state
+	// from call to call; such runs are preferred as replay candidates.
+	OwnHistory bool `json:"-"`
 }
 
 // HarnessError aborts a batch with exit 2 (never a VIOLATION).
